@@ -7,7 +7,17 @@ runs it on *positions* (y: 0.., x: 1000000.., u: 2000000.., time: 3000000..); th
 applies the returned positions to the implementation's own raw arrays (`resp.y/x/u/t`,
 `F.frdata`, `sys(x, squeeze=False)`) and compares shape and every entry exactly.  Raw arrays are
 compared exactly with a reference call that uses no squeeze/transpose setting (values are
-independent of the settings)."""
+independent of the settings).
+
+Besides single calls the family covers two *call-form / usage classes*: (a) the response
+functions called with a list or tuple of systems (`trdlist`, `frlist`: every element of the
+returned list is compared with the model of the list call, `timeResponseList` /
+`freqResponseList`, which is proved to be the single-system call element by element), the method
+forms `sys.step_response(...)`; (b) multi-step *histories* on response objects (`hist`, `histf`):
+reads of every property / tuple unpacking / indexing interleaved with changes of the squeeze
+setting by the three routes (copy `resp(squeeze=...)`, attribute assignment, package default)
+and of transpose / return_x / return_magphase; every read is compared with the model's reading
+for the settings in force at that read (`HState.run`)."""
 import itertools
 import math
 import re
@@ -136,9 +146,28 @@ def u_signal(m, T, u1d):
 # ----------------------------------------------------------------------------------------
 def call_time(c, sq, tr, rx):
     """call the real response function of case c with the given keyword values"""
-    fn, p, m, n, T = c["fn"], c["p"], c["m"], c["n"], c["T"]
-    sysd = get_sys(c.get("form", "ss"), p, m, n)
+    fn, T = c["fn"], c["T"]
+    if "sysl" in c:
+        # a list / tuple of systems: the shared arguments (U, X0) are built for the first one
+        # (the generator gives all systems of a forced / io / initial list the same number of
+        # inputs and states)
+        syss = [get_sys(f_, p_, m_, n_) for (f_, p_, m_, n_) in c["sysl"]]
+        sysd = tuple(syss) if c.get("cont") == "tuple" else list(syss)
+        form, p, m, n = c["sysl"][0]
+        first = syss[0]
+    else:
+        p, m, n, form = c["p"], c["m"], c["n"], c.get("form", "ss")
+        sysd = first = get_sys(form, p, m, n)
     tv = np.arange(T, dtype=float)
+    if c.get("via") == "method" and "sysl" not in c and fn != "io":
+        # sys.step_response(T, ...) etc.: thin wrappers that hand every keyword on
+        fns = {"forced": sysd.forced_response, "initial": sysd.initial_response,
+               "step": sysd.step_response, "impulse": sysd.impulse_response}
+        wrap = lambda f: (lambda s_, *a, **k: f(*a, **k))
+        F = {k: wrap(v) for k, v in fns.items()}
+    else:
+        F = {"forced": ct.forced_response, "initial": ct.initial_response,
+             "step": ct.step_response, "impulse": ct.impulse_response}
     kw = {}
     if sq != "N":
         kw["squeeze"] = SQV[sq]
@@ -146,15 +175,15 @@ def call_time(c, sq, tr, rx):
         kw["transpose"] = True
     if rx is not None:
         kw[c.get("rxname", "return_x")] = bool(rx)
-    nst = sysd.nstates if sysd.nstates is not None else 2
+    nst = first.nstates if first.nstates is not None else 2
     if fn == "forced":
         U = u_signal(m, T, c["u1d"])
         if tr:
             U = np.transpose(U)
         X0 = np.arange(1, nst + 1, dtype=float)
-        if c.get("form") == "tf":
-            return ct.forced_response(sysd, tv, U, **kw)
-        return ct.forced_response(sysd, tv, U, X0, **kw)
+        if form == "tf":
+            return F["forced"](sysd, tv, U, **kw)
+        return F["forced"](sysd, tv, U, X0, **kw)
     if fn == "io":
         U = u_signal(m, T, False)
         X0 = np.arange(1, nst + 1, dtype=float)
@@ -163,16 +192,26 @@ def call_time(c, sq, tr, rx):
         X0 = np.arange(1, nst + 1, dtype=float)
         if c["out"] is not None:
             kw["output"] = c["out"]
-        return ct.initial_response(sysd, tv, X0, **kw)
+        return F["initial"](sysd, tv, X0, **kw)
     if c["inp"] is not None:
         kw["input"] = c["inp"]
     if c["out"] is not None:
         kw["output"] = c["out"]
     if fn == "step":
-        return ct.step_response(sysd, tv, **kw)
+        return F["step"](sysd, tv, **kw)
     if fn == "impulse":
-        return ct.impulse_response(sysd, tv, **kw)
+        return F["impulse"](sysd, tv, **kw)
     raise ValueError(fn)
+
+
+def elem_case(c, i):
+    """the single-system case that element i of a list call stands for"""
+    form, p, m, n = c["sysl"][i]
+    d = {k: c[k] for k in ("fn", "T", "inp", "out", "u1d", "sq", "tr", "rx", "cfgsq", "cfgrx", "call")}
+    d.update({"kind": "trd", "form": form, "p": p, "m": m, "n": n})
+    if "rxname" in c:
+        d["rxname"] = c["rxname"]
+    return d
 
 
 def trd_observe(r, names=True):
@@ -219,6 +258,110 @@ def apply_call(r, call):
     if call.get("rx") is not None:
         kw["return_x"] = bool(call["rx"])
     return r(**kw)
+
+
+TOBS = ("time", "outputs", "states", "inputs", "iter", "len", "get0", "get1", "get2", "get3")
+FOBS = ("magnitude", "phase", "complex", "iter", "frdata")
+# python-side names that read the same thing through another (deprecated) name
+FOBS_ALIAS = {"response": "complex", "fresp": "frdata"}
+
+
+def read_tobs(r, o):
+    """one read of a TimeResponseData object"""
+    if o == "iter":
+        return guarded(lambda: [arr_canon(v) for v in tuple(r)])
+    if o == "len":
+        return guarded(lambda: len(r))
+    if o.startswith("get"):
+        return guarded(lambda: arr_canon(r[int(o[3:])]))
+    return guarded(lambda: arr_canon(getattr(r, o)))
+
+
+def read_fobs(F, o):
+    """one read of a FrequencyResponseData object"""
+    if o == "iter":
+        return guarded(lambda: [arr_canon(v) for v in tuple(F)])
+    return guarded(lambda: arr_canon(getattr(F, o)))
+
+
+def set_cfg(key, v, via):
+    if via == "set":
+        mod, name = key.split(".", 1)
+        ct.set_defaults(mod, **{name: v})
+    else:
+        ct.config.defaults[key] = v
+
+
+def run_history(obj0, steps, cfgkey, reader):
+    """apply the steps to the list of objects [obj0]; returns (readings, objects).  The caller
+    holds a Config context, which restores the package defaults."""
+    objs, reads = [obj0], []
+    for st in steps:
+        op = st[0]
+        if op == "R":
+            for o in st[2]:
+                reads.append(reader(objs[st[1]], o))
+        elif op == "C":
+            kw = {}
+            if cfgkey == CFG_KEYS[0]:
+                if st[2] is not None:
+                    kw["squeeze"] = SQV[st[2]]
+                if st[3] is not None:
+                    kw["transpose"] = bool(st[3])
+                if st[4] is not None:
+                    kw["return_x"] = bool(st[4])
+            else:
+                if st[2] != "-":                      # "-": keyword not given; "N": squeeze=None
+                    kw["squeeze"] = SQV[st[2]]
+                if st[3] is not None:
+                    kw["return_magphase"] = bool(st[3])
+            objs.append(objs[st[1]](**kw))
+        elif op == "S":
+            objs[st[1]].squeeze = SQV[st[2]]
+        elif op == "ST":
+            objs[st[1]].transpose = bool(st[2])
+        elif op == "SR":
+            objs[st[1]].return_x = bool(st[2])
+        elif op == "SM":
+            objs[st[1]].return_magphase = bool(st[2])
+        elif op == "G":
+            set_cfg(cfgkey, SQV[st[1]], st[2])
+        else:
+            raise ValueError(op)
+    return reads, objs
+
+
+def expand_reads(steps):
+    """(object, observable, kind of the last change before the read) of every single read"""
+    out, after = [], "none"
+    for st in steps:
+        if st[0] == "R":
+            out += [(st[1], o, after) for o in st[2]]
+        else:
+            after = {"C": "copy", "G": "cfg"}.get(st[0], "set")
+    return out
+
+
+def step_tokens(steps, freq):
+    toks, n = [], 0
+    o = lambda v: "-" if v is None else str(v)
+    for st in steps:
+        op = st[0]
+        if op == "R":
+            for ob in st[2]:
+                toks.append("R %d %s" % (st[1], FOBS_ALIAS.get(ob, ob) if freq else ob))
+                n += 1
+            continue
+        n += 1
+        if op == "C" and not freq:
+            toks.append("C %d %s %s %s" % (st[1], o(st[2]), o(st[3]), o(st[4])))
+        elif op == "C":
+            toks.append("C %d %s %s" % (st[1], "N" if st[2] == "-" else st[2], o(st[3])))
+        elif op == "G":
+            toks.append("G %s" % st[1])
+        else:
+            toks.append("%s %d %s" % (op, st[1], st[2]))
+    return "H %d %s" % (n, " ".join(toks))
 
 
 def synth(shape, off):
@@ -383,6 +526,47 @@ def parse_frd(out):
     return res
 
 
+def split_bar(out):
+    """'ok n | seg | seg ...' -> list of segments (or {"err"})"""
+    if out.startswith("err "):
+        return {"err": out.split()[1]}
+    parts = out.split(" | ")
+    head = parts[0].split()
+    if head[0] != "ok" or int(head[1]) != len(parts) - 1:
+        raise ValueError("bad list output: " + out[:80])
+    return parts[1:]
+
+
+def parse_treading(seg):
+    tk = Tk(seg)
+    k = tk.next()
+    if k == "arr":
+        return tk.arr()
+    if k == "tuple":
+        return tk.arrlist()
+    if k == "nat":
+        return tk.nat()
+    raise ValueError("reading " + k)
+
+
+def parse_freading(seg):
+    tk = Tk(seg)
+    k = tk.next()
+    if k == "item":
+        return parse_fitem(tk)
+    if k == "tuple":
+        if tk.peek() == "E":
+            tk.next()
+            return {"err": tk.next()}
+        n = tk.nat()
+        return [parse_fitem(tk) for _ in range(n)]
+    if k == "raw":
+        a = tk.arr()
+        a["kind"] = "raw"
+        return a
+    raise ValueError("reading " + k)
+
+
 def parse_arr_line(out):
     if out.startswith("err "):
         return {"err": out.split()[1]}
@@ -450,6 +634,18 @@ def phase_tok(t):
 # ----------------------------------------------------------------------------------------
 class C18(Family):
     prop = "C18"
+    # source-text tie (DESIGN 10.3): Generated/ProcessResponse.lean is rewritten from /repo's
+    # control/timeresp.py:_process_time_response and control/lti.py:_process_frequency_response on
+    # every run and proved equal to the models processTime / processFreq
+    extra_modules = ["CtrlVerif.Props.C18Gen"]
+
+    def pre_build(self):
+        import os
+        from core import py2lean, leanproj
+        repo = os.environ.get("VERIF_REPO") or "/repo"
+        problems, self.gen_info = py2lean.regenerate_arrays(repo, leanproj.LEAN)
+        return problems
+
     exhaustive = True
     externals = ["numpy squeeze/transpose/indexing semantics (modelled on (shape, flat data), validated "
                  "entry by entry on every case)",
@@ -467,8 +663,14 @@ class C18(Family):
             "constructor calls with all 1-3-D shape classes incl. length-one time axes and invalid "
             "shapes; FrequencyResponseData constructor, sys.frequency_response / ct.frequency_response, "
             "sys(x) / evalfr / F.eval / F(x) with scalar, 1-element, n-element and 2-D points, for tf, ss, "
-            "frd; name / integer / pair keys on every NamedSignal.  Every case is non-trivial when some "
-            "array has more than one entry; distinct = distinct canonical case")
+            "frd; name / integer / pair keys on every NamedSignal; the five time-response functions and "
+            "ct.frequency_response called with a list / tuple of 1-3 systems of different sizes (every "
+            "element compared with the model of the list call), method forms sys.step_response(...); "
+            "histories on one response object (structured: read all, change squeeze by copy / attribute "
+            "/ package default, read all on copy and original, change back, read; random: 4-12 steps of "
+            "single / subset / full reads, copies, attribute assignments of squeeze, transpose, return_x, "
+            "return_magphase, package default changes) for time and frequency responses.  Every case is "
+            "non-trivial when some array has more than one entry; distinct = distinct canonical case")
 
     # ---- generation ------------------------------------------------------------------
     def sq_routes(self, full):
@@ -531,6 +733,8 @@ class C18(Family):
                 d = dict(c); d["call"] = {"sq": None, "tr": 1, "rx": None}; extra.append(d)
             if c["rx"] == 1 and c["tr"] == 0 and c["call"] is None and c["fn"] != "io":
                 d = dict(c); d["rxname"] = "return_states"; extra.append(d)
+            if c["fn"] != "io" and c["call"] is None and c["cfgrx"] == 0 and c["n"] == 2:
+                d = dict(c); d["via"] = "method"; extra.append(d)       # sys.step_response(T, ...)
         for fn in ("forced", "step", "initial"):
             extra.append({"kind": "trd", "fn": fn, "p": 1, "m": 1, "n": 1, "T": 3, "inp": None, "out": None,
                           "u1d": 0, "form": "ss", "sq": "N", "tr": 0, "rx": None, "cfgsq": "X", "cfgrx": 0,
@@ -680,9 +884,192 @@ class C18(Family):
             cases = cases[: len(cases) // 4]
         return cases
 
+    # ---- lists / tuples of systems --------------------------------------------------------
+    def gen_lists(self, rng, tier):
+        full = tier == "thorough"
+        cases = []
+        free = [[["ss", 1, 1, 1], ["ss", 2, 1, 2]],
+                [["ss", 1, 1, 2], ["ss", 1, 2, 1], ["ss", 2, 2, 2]],
+                [["ss", 2, 1, 1]],
+                [["tf", 1, 1, 2], ["ss", 1, 2, 2]]]
+        tied = [[["ss", 1, 1, 2], ["ss", 2, 1, 2]],          # same inputs / states: shared U, X0
+                [["ss", 1, 2, 1], ["ss", 2, 2, 1]],
+                [["ss", 1, 1, 1]],
+                [["ss", 2, 1, 2], ["ss", 1, 1, 2], ["ss", 1, 1, 2]]]
+        routes = self.sq_routes(full)
+        for fn in ("forced", "io", "initial", "step", "impulse"):
+            lists = free if fn in ("step", "impulse") else tied
+            if fn in ("forced", "io"):
+                lists = lists + [[["ss", 1, 1, 0], ["ss", 2, 1, 0]]]
+            for li, sysl in enumerate(lists):
+                sels = [(None, None)]
+                if fn in ("step", "impulse"):
+                    sels += [(0, 0), (None, 0), (0, None), (1, None)]   # input 1: IndexError for m = 1
+                if fn == "initial":
+                    sels += [(None, 0), (None, 1)]
+                for inp, out in sels:
+                    for (a, cf, k) in routes:
+                        for tr in (0, 1):
+                            rxs = [(None, 0, None), (1, 0, None), (None, 0, 1)]
+                            if fn == "forced":
+                                rxs += [(None, 1, None), (0, 1, None)]
+                            for (rx, cfgrx, callrx) in rxs:
+                                if (inp, out) != (None, None) and (rx, cfgrx, callrx) != (None, 0, None):
+                                    continue
+                                call = None
+                                if k is not None or callrx is not None:
+                                    call = {"sq": k, "tr": None, "rx": callrx}
+                                c = {"kind": "trdlist", "fn": fn, "sysl": sysl, "T": 3, "inp": inp,
+                                     "out": out, "u1d": 0, "sq": a, "tr": tr, "rx": rx, "cfgsq": cf,
+                                     "cfgrx": cfgrx, "call": call,
+                                     "cont": "tuple" if (li + tr + len(cases)) % 3 == 0 else "list"}
+                                cases.append(c)
+                                if rx == 1 and tr == 0 and call is None and fn != "io":
+                                    d = dict(c); d["rxname"] = "return_states"; cases.append(d)
+        # frequency responses of a list of systems
+        fl = [[["tf", 1, 1], ["ss", 2, 1]], [["ss", 1, 2], ["tf", 2, 2], ["ss", 1, 1]], [["tf", 2, 1]],
+              [["frd", 1, 1], ["frd", 2, 2]]]
+        sqroutes = [("N", "N", None), ("T", "N", None), ("F", "N", None), ("N", "T", None), ("N", "F", None),
+                    ("N", "N", "T"), ("N", "N", "F"), ("T", "F", None), ("F", "T", None), ("T", "N", "F")]
+        for li, sysl in enumerate(fl):
+            for N in (3, 1):
+                for (a, cf, k) in sqroutes:
+                    call = None if k is None else {"sq": k, "rm": None}
+                    cases.append({"kind": "frlist", "sysl": sysl, "N": N, "sq": a, "cfgsq": cf, "call": call,
+                                  "cont": "tuple" if (li + N) % 2 else "list"})
+        if not full:
+            rng.shuffle(cases)
+            cases = cases[: len(cases) // 2]
+        return cases
+
+    # ---- histories -----------------------------------------------------------------------
+    def change(self, rng, route, v, j, nobj, freq):
+        """the step that brings squeeze value v into force by the given route; returns
+        (steps, object to read afterwards, new number of objects)"""
+        if route == "copy":
+            if freq:
+                return [["C", j, "-" if v == "N" and rng.random() < 0.5 else v, None]], nobj, nobj + 1
+            return [["C", j, v, None, None]], nobj, nobj + 1
+        if route == "set":
+            return [["S", j, v]], j, nobj
+        return [["G", v, "set" if rng.random() < 0.5 else "dict"]], j, nobj
+
+    def structured_hist(self, rng, freq):
+        """read everything, change the setting, read everything again (on the copy and on the
+        original), change back / further by another route, read again"""
+        allobs = list(FOBS if freq else TOBS)
+        extra = ["response", "fresp"] if freq else []
+        out = []
+        for route in ("copy", "set", "cfg"):
+            for v in ("T", "F"):
+                for route2 in ("copy", "set", "cfg"):
+                    first = list(allobs)
+                    if rng.random() < 0.5:
+                        rng.shuffle(first)
+                    steps = [["R", 0, first + (extra if rng.random() < 0.3 else [])]]
+                    ch, j, nobj = self.change(rng, route, v, 0, 1, freq)
+                    steps += ch
+                    steps.append(["R", j, list(allobs)])
+                    if j != 0:
+                        steps.append(["R", 0, list(allobs)])
+                    # a cfg value only shows on an object whose attribute is unset
+                    v2 = rng.choice(["N", "T", "F"])
+                    if route == "cfg" and route2 != "cfg":
+                        v2 = rng.choice(["T", "F"])
+                    ch2, j2, nobj = self.change(rng, route2, v2, j, nobj, freq)
+                    steps += ch2
+                    second = list(allobs)
+                    rng.shuffle(second)
+                    steps.append(["R", j2, second])
+                    if j2 != j:
+                        steps.append(["R", j, [rng.choice(allobs), rng.choice(allobs)]])
+                    out.append(steps)
+        return out
+
+    def random_hist(self, rng, freq):
+        allobs = list(FOBS if freq else TOBS) + (["response", "fresp"] if freq else [])
+        nobj, steps = 1, []
+        for _ in range(rng.randint(4, 12)):
+            x = rng.random()
+            j = rng.randrange(nobj)
+            if x < 0.45:
+                y = rng.random()
+                if y < 0.5:
+                    obs = [rng.choice(allobs)]
+                elif y < 0.75:
+                    obs = rng.sample(allobs, rng.randint(2, 4))
+                else:
+                    obs = list(allobs[: len(FOBS if freq else TOBS)])
+                steps.append(["R", j, obs])
+            elif x < 0.60 and nobj < 4:
+                if freq:
+                    steps.append(["C", j, rng.choice(["-", "N", "T", "F", "T", "F"]),
+                                  rng.choice([None, None, 0, 1])])
+                else:
+                    steps.append(["C", j, rng.choice([None, "N", "T", "F", "T", "F"]),
+                                  rng.choice([None, None, 0, 1]), rng.choice([None, None, 0, 1])])
+                nobj += 1
+            elif x < 0.75:
+                steps.append(["S", j, rng.choice(["N", "T", "F", "T", "F", "N", "T", "F", "X"])])
+            elif x < 0.85:
+                if freq:
+                    steps.append(["SM", j, rng.randint(0, 1)])
+                else:
+                    steps.append([rng.choice(["ST", "SR"]), j, rng.randint(0, 1)])
+            else:
+                steps.append(["G", rng.choice(["N", "T", "F", "T", "F", "N", "T", "F", "X"]),
+                              rng.choice(["set", "dict"])])
+        steps.append(["R", rng.randrange(nobj), list(allobs[: len(FOBS if freq else TOBS)])])
+        return steps
+
+    def gen_hist(self, rng, tier):
+        full = tier == "thorough"
+        cases = []
+        # time responses: objects from the response functions and from the constructor
+        tb = []
+        for fn in ("forced", "io", "initial", "step", "impulse"):
+            for p, m in itertools.product((1, 2), (1, 2)):
+                for tr in (0, 1):
+                    tb.append({"kind": "trd", "fn": fn, "p": p, "m": m, "n": 2, "T": 3, "inp": None, "out": None,
+                               "u1d": 0, "form": "ss", "sq": "N", "tr": tr, "rx": None, "cfgsq": "N", "cfgrx": 0,
+                               "call": None})
+        tb.append(dict(tb[0], fn="io", n=0, p=1, m=1, tr=0))
+        tb.append(dict(tb[0], fn="step", form="tf", p=1, m=1, tr=0))
+        tb.append(dict(tb[0], fn="step", p=2, m=2, inp=0, out=1, tr=0))
+        tb.append(dict(tb[0], fn="forced", p=1, m=1, n=1, u1d=1, tr=0, rx=1))
+        for (ts, ys, xs, us, multi) in (([3], [2, 2, 3], [2, 2, 3], [1, 2, 3], 0), ([3], [3], [2, 3], [3], 0),
+                                        ([3], [2, 3], [1, 2, 3], [2, 3], 1), ([1], [1, 1], None, [1, 1], 0)):
+            tb.append({"kind": "ctor", "ts": ts, "ys": ys, "xs": xs, "us": us, "multi": multi, "siso": None,
+                       "sq": "N", "tr": 0, "rx": 0, "cfgsq": "N", "cfgrx": 0, "call": None})
+        fb = []
+        for form in ("tf", "ss", "frd"):
+            for p, m in itertools.product((1, 2), (1, 2)):
+                for N in (3, 1):
+                    fb.append({"kind": "ltifr", "form": form, "p": p, "m": m, "N": N, "sq": "N", "cfgsq": "N",
+                               "call": None, "via": "func" if (p + m + N) % 2 else "method"})
+        for rs, os_ in (([3], [3]), ([1, 1, 3], [3]), ([2, 1, 3], [3]), ([1, 2, 1], [1]), ([], [])):
+            fb.append({"kind": "frd", "rs": rs, "os": os_, "sq": "N", "rm": 0, "cfgsq": "N", "call": None})
+        for freq, bases, kind in ((False, tb, "hist"), (True, fb, "histf")):
+            for b in bases:
+                st = self.structured_hist(rng, freq)
+                nrand = 6 if full else 2
+                if not full:
+                    st = rng.sample(st, 3)
+                for steps in st:
+                    cases.append({"kind": kind, "base": b, "steps": steps})
+                for _ in range(nrand):
+                    b2 = dict(b)
+                    # start from a non-default setting now and then
+                    if rng.random() < 0.4:
+                        b2["sq"] = rng.choice(["T", "F"])
+                    if rng.random() < 0.25:
+                        b2["cfgsq"] = rng.choice(["T", "F"])
+                    cases.append({"kind": kind, "base": b2, "steps": self.random_hist(rng, freq)})
+        return cases
+
     def generate(self, rng, tier):
         return (self.gen_time(rng, tier) + self.gen_ctor(rng, tier) + self.gen_freq(rng, tier)
-                + self.gen_keys(rng, tier))
+                + self.gen_keys(rng, tier) + self.gen_lists(rng, tier) + self.gen_hist(rng, tier))
 
     def corpus(self):
         t = lambda **kw: dict({"kind": "trd", "fn": "step", "p": 1, "m": 1, "n": 2, "T": 3, "inp": None,
@@ -694,6 +1081,23 @@ class C18(Family):
             t(fn="io", n=0),              # no state data
             {"kind": "ltifr", "form": "tf", "p": 2, "m": 1, "N": 2, "sq": "N", "cfgsq": "T", "call": None,
              "via": "method"},            # frequency_response under a configured squeeze default
+            # a list of systems with a non-default squeeze (keywords must reach every element)
+            {"kind": "trdlist", "fn": "impulse", "sysl": [["ss", 1, 1, 1], ["ss", 2, 1, 2]], "T": 3, "inp": None,
+             "out": None, "u1d": 0, "sq": "F", "tr": 0, "rx": None, "cfgsq": "N", "cfgrx": 0, "call": None,
+             "cont": "list"},
+            {"kind": "trdlist", "fn": "step", "sysl": [["ss", 2, 1, 1]], "T": 3, "inp": None, "out": None,
+             "u1d": 0, "sq": "T", "tr": 1, "rx": 1, "cfgsq": "N", "cfgrx": 0, "call": None, "cont": "tuple"},
+            # read, change the setting by each route, read again (one object)
+            {"kind": "histf", "base": {"kind": "ltifr", "form": "ss", "p": 1, "m": 1, "N": 3, "sq": "N",
+                                       "cfgsq": "N", "call": None, "via": "func"},
+             "steps": [["R", 0, ["magnitude", "phase", "complex", "iter"]], ["C", 0, "F", None],
+                       ["R", 1, ["magnitude", "phase", "complex", "iter"]], ["S", 0, "T"],
+                       ["R", 0, ["magnitude", "phase"]], ["S", 0, "N"], ["G", "F", "dict"],
+                       ["R", 0, ["magnitude", "phase", "iter"]]]},
+            {"kind": "hist", "base": t(p=2, m=1),
+             "steps": [["R", 0, list(TOBS)], ["C", 0, "T", None, 1], ["R", 1, list(TOBS)], ["R", 0, ["outputs"]],
+                       ["S", 0, "F"], ["R", 0, ["outputs", "states", "inputs", "iter", "get1"]], ["S", 0, "N"],
+                       ["G", "T", "set"], ["R", 0, ["outputs", "states", "inputs"]]]},
         ]
 
     # ---- driver lines -------------------------------------------------------------------
@@ -748,6 +1152,23 @@ class C18(Family):
         if k == "frdeval":
             return "c18 frdeval 3 %d %d 3 1 3 %d %s %d %s %s" % (
                 c["p"], c["m"], len(c["ks"]), " ".join(map(str, c["ks"])), c["scalar"], c["sq"], c["cfgsq"])
+        if k == "trdlist":
+            return "c18 trdlist %s %d %s %d %s %s %d %s %d %s %s" % (
+                c["fn"], len(c["sysl"]), " ".join("%d %d %d" % (p, m, n) for (_, p, m, n) in c["sysl"]),
+                c["T"], self.o(c["inp"]), self.o(c["out"]), c["u1d"], c["sq"], c["tr"], self.o(c["rx"]),
+                self.tail(c))
+        if k == "frlist":
+            return "c18 frlist %d %s %d %s %s %s" % (
+                len(c["sysl"]), " ".join("%d %d" % (p, m) for (_, p, m) in c["sysl"]), c["N"], c["sq"],
+                c["cfgsq"], self.ftail(c))
+        if k == "hist":
+            b = c["base"]
+            op = "hist" if b["kind"] == "trd" else "histctor"
+            return "c18 %s %s %s" % (op, self.line(b)[len("c18 %s " % b["kind"]):], step_tokens(c["steps"], False))
+        if k == "histf":
+            b = c["base"]
+            op = "histfr" if b["kind"] == "ltifr" else "histfrd"
+            return "c18 %s %s %s" % (op, self.line(b)[len("c18 %s " % b["kind"]):], step_tokens(c["steps"], True))
         if k == "key":
             b = c["base"]
             pre = {"outputs": "y", "states": "x", "inputs": "u", "magnitude": "y", "complex": "y"}[c["obs"]]
@@ -862,6 +1283,76 @@ class C18(Family):
                 v = F.eval(arg, **kw) if c["via"] == "eval" else F(1j * arg, **kw)
             return {"ok": {"val": arr_canon(v),
                            "ref": [ctok(z) for z in F.frdata.reshape(-1).tolist()]}}
+        if k == "trdlist":
+            refs = [time_reference(elem_case(c, i)) for i in range(len(c["sysl"]))]
+            with Config(**{CFG_KEYS[0]: SQV[c["cfgsq"]], CFG_KEYS[2]: bool(c["cfgrx"])}):
+                rl = call_time(c, c["sq"], c["tr"], c["rx"])
+                elems = []
+                for r in rl:
+                    elems.append(trd_observe(apply_call(r, c.get("call"))))
+            for i, obs in enumerate(elems):
+                obs["ref_equal"] = i < len(refs) and all(obs["raw"][x] == refs[i][x] for x in "yxut")
+            return {"ok": {"type": type(rl).__name__, "elems": elems}}
+        if k == "frlist":
+            syss = [fsys(f_, p_, m_) for (f_, p_, m_) in c["sysl"]]
+            om = np.array(FREQS[c["N"]])
+            refs = [s_(1j * om, squeeze=False) for s_ in syss]
+            with Config(**{CFG_KEYS[1]: SQV[c["cfgsq"]]}):
+                kw = {} if c["sq"] == "N" else {"squeeze": SQV[c["sq"]]}
+                Fl = ct.frequency_response(tuple(syss) if c.get("cont") == "tuple" else syss, om, **kw)
+                elems = []
+                for F in Fl:
+                    call = c.get("call")
+                    if call is not None:
+                        kw2 = {}
+                        if call.get("sq") is not None:
+                            kw2["squeeze"] = SQV[call["sq"]]
+                        if call.get("rm") is not None:
+                            kw2["return_magphase"] = bool(call["rm"])
+                        F = F(**kw2)
+                    elems.append(frd_observe(F))
+            for i, obs in enumerate(elems):
+                obs["ref"] = [ctok(v) for v in np.asarray(refs[i]).reshape(-1).tolist()] if i < len(refs) else []
+            return {"ok": {"type": type(Fl).__name__, "elems": elems}}
+        if k == "hist":
+            b = c["base"]
+            ref = time_reference(b) if b["kind"] == "trd" else None
+            with Config(**{CFG_KEYS[0]: SQV[b["cfgsq"]], CFG_KEYS[2]: bool(b["cfgrx"])}):
+                if b["kind"] == "trd":
+                    r = call_time(b, b["sq"], b["tr"], b["rx"])
+                else:
+                    t = synth(b["ts"], 3 * OFF)
+                    r = ct.TimeResponseData(
+                        t if b["ts"] else float(t), synth(b["ys"], 0), synth(b["xs"], OFF), synth(b["us"], 2 * OFF),
+                        issiso=None if b["siso"] is None else bool(b["siso"]),
+                        transpose=bool(b["tr"]), return_x=bool(b["rx"]), squeeze=SQV[b["sq"]],
+                        multi_trace=bool(b["multi"]))
+                r = apply_call(r, b.get("call"))
+                rawof = lambda q: {"y": arr_canon(q.y), "x": arr_canon(q.x), "u": arr_canon(q.u), "t": arr_canon(q.t)}
+                raw = rawof(r)
+                reads, objs = run_history(r, c["steps"], CFG_KEYS[0], read_tobs)
+                same = all(rawof(q) == raw for q in objs)
+            return {"ok": {"reads": reads, "raw": raw, "raw_kept": same,
+                           "ref_equal": ref is None or all(raw[x] == ref[x] for x in "yxut")}}
+        if k == "histf":
+            b = c["base"]
+            with Config(**{CFG_KEYS[1]: SQV[b["cfgsq"]]}):
+                if b["kind"] == "ltifr":
+                    sysd = fsys(b["form"], b["p"], b["m"])
+                    refv = sysd(1j * np.array(FREQS[b["N"]]), squeeze=False)
+                    F = self.make_fr(b)
+                else:
+                    refv = fsynth(b["rs"])
+                    om = (np.arange(int(np.prod(b["os"])) if b["os"] else 1, dtype=float) + 1).reshape(b["os"])
+                    kw = {} if b["sq"] == "N" else {"squeeze": SQV[b["sq"]]}
+                    F = ct.FrequencyResponseData(refv if b["rs"] else complex(refv), om if b["os"] else float(om),
+                                                 return_magphase=bool(b["rm"]), **kw)
+                raw = arr_canon(F.frdata)
+                omega = arr_canon(F.omega)
+                reads, objs = run_history(F, c["steps"], CFG_KEYS[1], read_fobs)
+                same = all(arr_canon(q.frdata) == raw and arr_canon(q.omega) == omega for q in objs)
+            return {"ok": {"reads": reads, "raw": raw, "omega": omega, "raw_kept": same,
+                           "ref": [ctok(v) for v in np.asarray(refv).reshape(-1).tolist()]}}
         if k == "key":
             b = c["base"]
             if b["kind"] == "trd":
@@ -900,6 +1391,16 @@ class C18(Family):
             return parse_frd(out)
         if k in ("lti", "frdeval"):
             return parse_arr_line(out)
+        if k in ("trdlist", "frlist"):
+            segs = split_bar(out)
+            if isinstance(segs, dict):
+                return segs
+            return {"elems": [(parse_trd if k == "trdlist" else parse_frd)("ok " + g) for g in segs]}
+        if k in ("hist", "histf"):
+            segs = split_bar(out)
+            if isinstance(segs, dict):
+                return segs
+            return {"reads": [(parse_treading if k == "hist" else parse_freading)(g) for g in segs]}
         if k == "key":
             if out.startswith("err "):
                 return {"err": out.split()[1]}
@@ -922,16 +1423,27 @@ class C18(Family):
             for key in ("fn", "via"):
                 if key in b:
                     f[key] = b[key]
-        if c["kind"] in ("trd", "ctor"):
+        if c["kind"] in ("hist", "histf"):
+            cur = getattr(self, "_cur", None) or {}
+            f["after"] = cur.get("after", "none")      # kind of the last change before the failing read
+            f["obj"] = cur.get("obj", "orig")
+            f["base"] = b["kind"]
+            if "fn" in b:
+                f["fn"] = b["fn"]
+            return f
+        if c["kind"] == "trdlist":
+            f["fn"] = c["fn"]
+        if c["kind"] in ("trd", "ctor", "trdlist"):
             f["route"] = ("cfg" if c["cfgsq"] != "N" else "") + ("arg" if c["sq"] != "N" else "") + \
                 ("attr" if (c.get("call") or {}).get("sq") else "") or "default"
             f["tr"] = c["tr"] or int(bool((c.get("call") or {}).get("tr")))
-        if c["kind"] in ("ltifr", "frd", "lti", "frdeval"):
+        if c["kind"] in ("ltifr", "frd", "lti", "frdeval", "frlist"):
             f["route"] = ("cfg" if c["cfgsq"] != "N" else "") + ("arg" if c["sq"] != "N" else "") + \
                 ("attr" if (c.get("call") or {}).get("sq") not in (None, "N") else "") or "default"
         return f
 
     def compare(self, c, impl, model):
+        self._cur = None
         try:
             self.compare_(c, impl, model)
         except Mismatch as m:
@@ -961,6 +1473,113 @@ class C18(Family):
             cmp_arr("value", o["val"], model, lambda p: ref[p])
         elif k == "key":
             self.cmp_key(c, o, model)
+        elif k in ("trdlist", "frlist"):
+            self.cmp_list(c, o, model)
+        elif k == "hist":
+            self.cmp_hist(c, o, model)
+        elif k == "histf":
+            self.cmp_histf(c, o, model)
+
+    def cmp_list(self, c, o, model):
+        want = "TimeResponseList" if c["kind"] == "trdlist" else "FrequencyResponseList"
+        if o["type"] != want:
+            raise Mismatch("type", "list", "a %s is returned, expected a %s" % (o["type"], want), DIFFERS)
+        if len(o["elems"]) != len(model["elems"]):
+            raise Mismatch("arity", "list", "%d responses for %d systems" % (len(o["elems"]), len(model["elems"])))
+        for i, (a, b) in enumerate(zip(o["elems"], model["elems"])):
+            try:
+                if "err" in b:      # (cannot happen: the list call would have raised)
+                    raise Mismatch("returns", "call", "model raises %s for system %d" % (b["err"], i), DIFFERS)
+                if c["kind"] == "trdlist":
+                    self.cmp_trd(a, b)
+                else:
+                    self.cmp_frd(a, b)
+            except Mismatch as m:
+                m.detail = "response %d of the list (system %s): %s" % (i, "x".join(map(str, c["sysl"][i][1:3])), m.detail)
+                raise
+
+    def cmp_hist(self, c, o, model):
+        if not o["ref_equal"]:
+            raise Mismatch("values-depend-on-settings", "raw", "raw y/x/u/t differ from the call without "
+                           "squeeze/transpose settings")
+        if not o["raw_kept"]:
+            raise Mismatch("values-depend-on-settings", "raw", "the stored y/x/u/t of some object changed "
+                           "during the history")
+        raw = o["raw"]
+
+        def lookup(p):
+            return raw[SRC[p // OFF]]["data"][p % OFF]
+        info = expand_reads(c["steps"])
+        if len(info) != len(model["reads"]) or len(info) != len(o["reads"]):
+            raise Mismatch("harness", "reads", "read counts differ", DIFFERS)
+        for k, ((j, ob, after), a, b) in enumerate(zip(info, o["reads"], model["reads"])):
+            self._cur = {"after": after, "obj": "copy" if j else "orig"}
+            where = "read %d (%s of object %d, after %s)" % (k, ob, j, after)
+            try:
+                if ob == "len":
+                    if a != b:
+                        raise Mismatch("arity", "len", "len %s, expected %s" % (a, b))
+                elif ob == "iter":
+                    if isinstance(b, dict):
+                        cmp_arr("iter", a if isinstance(a, dict) else {"shape": []}, b, lookup)
+                    else:
+                        if isinstance(a, dict):
+                            raise Mismatch("raises", "iter", "implementation raises %s" % a["exc"])
+                        if len(a) != len(b):
+                            raise Mismatch("arity", "iter", "tuple of %d, expected %d" % (len(a), len(b)))
+                        for q, (x, y) in enumerate(zip(a, b)):
+                            cmp_arr("iter[%d]" % q, x, y, lookup)
+                else:
+                    cmp_arr(ob, a, b, lookup)
+            except Mismatch as m:
+                m.detail = where + ": " + m.detail
+                raise
+        self._cur = None
+
+    def cmp_histf(self, c, o, model):
+        ref = o["ref"]
+        if o["raw"] is None or o["raw"]["data"] != ref:
+            raise Mismatch("values-depend-on-settings", "frdata", "stored data differ from sys(x, squeeze=False)")
+        if not o["raw_kept"]:
+            raise Mismatch("values-depend-on-settings", "frdata", "the stored frdata / omega of some object "
+                           "changed during the history")
+        lookup = lambda p: ref[p]
+        info = expand_reads(c["steps"])
+        if len(info) != len(model["reads"]) or len(info) != len(o["reads"]):
+            raise Mismatch("harness", "reads", "read counts differ", DIFFERS)
+        for k, ((j, ob, after), a, b) in enumerate(zip(info, o["reads"], model["reads"])):
+            self._cur = {"after": after, "obj": "copy" if j else "orig"}
+            where = "read %d (%s of object %d, after %s)" % (k, ob, j, after)
+            try:
+                if isinstance(b, list):
+                    if isinstance(a, dict):
+                        raise Mismatch("raises", "iter", "implementation raises %s" % a["exc"])
+                    if len(a) != len(b):
+                        raise Mismatch("arity", "iter", "tuple of %d, expected %d" % (len(a), len(b)))
+                    for q, (x, y) in enumerate(zip(a, b)):
+                        self.cmp_fitem("iter[%d]" % q, x, y, lookup, o["omega"])
+                elif ob == "iter":
+                    cmp_arr("iter", a if isinstance(a, dict) else {"shape": []}, b, lookup)
+                else:
+                    self.cmp_fitem(ob, a, b, lookup, o["omega"])
+            except Mismatch as m:
+                m.detail = where + ": " + m.detail
+                raise
+        self._cur = None
+
+    @staticmethod
+    def cmp_fitem(name, a, b, lookup, omega):
+        if isinstance(b, dict) and b.get("kind") == "omega":
+            if a != omega:
+                raise Mismatch("data", name, "expected the frequency vector")
+            return
+        kind = b.get("kind") if isinstance(b, dict) else None
+        if kind == "mag":
+            cmp_arr(name, a, b, lookup, mag_tok, approx=True)
+        elif kind == "phase":
+            cmp_arr(name, a, b, lookup, phase_tok, approx=True)
+        else:
+            cmp_arr(name, a, b, lookup)
 
     def cmp_trd(self, o, model):
         if not o["ref_equal"]:
@@ -1056,6 +1675,11 @@ class C18(Family):
             return isinstance(m, dict) and len(m.get("pos", [])) > 1
         if c["kind"] == "key":
             return True
+        if c["kind"] in ("trdlist", "frlist"):
+            return len(model["elems"]) >= 1
+        if c["kind"] in ("hist", "histf"):
+            # at least one read after a change of settings
+            return any(after != "none" for (_, _, after) in expand_reads(c["steps"]))
         return isinstance(model, dict) and len(model.get("pos", [])) >= 1
 
     def stats(self, c, impl, model):
@@ -1069,8 +1693,20 @@ class C18(Family):
             st["squeeze"] = "%s/%s/%s" % (c["sq"], c["cfgsq"], (c.get("call") or {}).get("sq"))
             if isinstance(model["outputs"], dict) and "shape" in model["outputs"]:
                 st["out_ndim"] = len(model["outputs"]["shape"])
-        if c["kind"] in ("frd", "ltifr", "lti", "frdeval"):
+        if c["kind"] in ("frd", "ltifr", "lti", "frdeval", "frlist"):
             st["squeeze"] = "%s/%s" % (c["sq"], c["cfgsq"])
+        if c["kind"] == "trdlist":
+            st["fn"] = c["fn"]
+            st["nsys"] = len(c["sysl"])
+            st["container"] = c.get("cont", "list")
+            st["squeeze"] = "%s/%s/%s" % (c["sq"], c["cfgsq"], (c.get("call") or {}).get("sq"))
+        if c["kind"] in ("hist", "histf"):
+            ops = [x[0] for x in c["steps"]]
+            st["changes"] = "+".join(sorted(set(o_ for o_ in ops if o_ != "R"))) or "none"
+            st["nreads"] = min(40, 10 * (len(expand_reads(c["steps"])) // 10))
+            st["base"] = b["kind"]
+        if c.get("via") == "method":
+            st["via"] = "method"
         if "err" in model and "err" in impl:
             st["errkind_equal"] = impl["err"] == model["err"]
         return st
@@ -1096,6 +1732,34 @@ class C18(Family):
                     if d["kind"] == "frdeval" and key == "via":
                         continue
                     yield d
+
+        elif c["kind"] in ("trdlist", "frlist"):
+            if len(c["sysl"]) > 1:
+                for i in range(len(c["sysl"])):
+                    d = dict(c)
+                    d["sysl"] = c["sysl"][:i] + c["sysl"][i + 1:]
+                    # the shared U / X0 of forced, io, initial are built for the first system
+                    yield d
+            for key, val in (("rx", None), ("cfgrx", 0), ("call", None), ("inp", None), ("out", None),
+                             ("tr", 0), ("cfgsq", "N"), ("sq", "N"), ("cont", "list")):
+                if key in c and c.get(key) != val:
+                    d = dict(c)
+                    d[key] = val
+                    d.pop("rxname", None) if key == "rx" else None
+                    yield d
+        elif c["kind"] in ("hist", "histf"):
+            steps = c["steps"]
+            # drop the tail, drop single steps that create no object, thin out the reads
+            for k in range(len(steps) - 1, 0, -1):
+                yield dict(c, steps=steps[:k])
+            for k, st in enumerate(steps):
+                if st[0] != "C":
+                    yield dict(c, steps=steps[:k] + steps[k + 1:])
+                if st[0] == "R" and len(st[2]) > 1:
+                    for ob in st[2]:
+                        yield dict(c, steps=steps[:k] + [["R", st[1], [ob]]] + steps[k + 1:])
+            for b in self.shrink(c["base"]):
+                yield dict(c, base=b)
 
     def search(self, rng, case, tier):
         return []
